@@ -155,8 +155,8 @@ Qed.
 Section Linked.
 Variables snake camel screaming : str -> str.
 Variable ev : env.
-Notation virtual_ok := (virtual_ok snake camel screaming true).
-Notation method_msgs_ok := (method_msgs_ok snake camel screaming true).
+Notation virtual_ok := (virtual_ok snake camel screaming).
+Notation method_msgs_ok := (method_msgs_ok snake camel screaming).
 
 Lemma virtual_ok_shape name virt decl m m' :
   shape_eq m m' -> virtual_ok name virt decl m -> virtual_ok name virt decl m'.
@@ -192,7 +192,7 @@ Qed.
 
 Lemma service_linked spkg sv ms ds :
   wf_service snake camel ev sv = true -> svc_pre snake camel screaming ev sv ms ds ->
-  service_linked_ok snake camel screaming true spkg sv (link_msgs spkg ms) (link_s spkg ds).
+  service_linked_ok snake camel screaming spkg sv (link_msgs spkg ms) (link_s spkg ds).
 Proof.
   intros Hw [is E]. destruct (cv_service_ok snake camel screaming _ _ _ _ _ E) as (ds0 & Heq & Hn & Ht & HF & mss & Hms & HFm).
   inversion Heq. subst ds0. clear Heq.
@@ -209,8 +209,8 @@ Qed.
 
 Lemma topic_service_linked spkg tname topic_name rl virt l ms ds :
   (forall t, In t l -> good_name (tmsg_name tname t)) ->
-  topic_service_ok snake camel screaming true tname topic_name rl virt l ms ds ->
-  topic_service_linked_ok snake camel screaming true spkg tname topic_name rl virt l (link_msgs spkg ms) (link_s spkg ds).
+  topic_service_ok snake camel screaming tname topic_name rl virt l ms ds ->
+  topic_service_linked_ok snake camel screaming spkg tname topic_name rl virt l (link_msgs spkg ms) (link_s spkg ds).
 Proof.
   intros Hg (Hn & Ht & HF & HM). unfold topic_service_linked_ok, link_s. cbn [ds_name ds_topic ds_methods].
   split; [exact Hn|]. split; [exact Ht|]. split.
@@ -224,7 +224,7 @@ Qed.
 
 Lemma topic_linked spkg tp ms ss :
   wf_topic snake camel ev tp = true -> top_pre snake camel screaming ev tp ms ss ->
-  topic_linked_ok snake camel screaming true spkg tp (link_msgs spkg ms) (map (link_s spkg) ss).
+  topic_linked_ok snake camel screaming spkg tp (link_msgs spkg ms) (map (link_s spkg) ss).
 Proof.
   intros Hw [is E]. pose proof (cv_topic_ok snake camel screaming _ _ _ _ _ E) as Hok.
   destruct tp as [name msgs|name req reply|name entity msg|name entity msg]; cbn [wf_topic topic_linked_ok] in *.
@@ -276,9 +276,9 @@ Lemma cv_file_subs bd f D :
   valid_file snake camel bd f = true ->
   cv_file snake camel screaming (pkg_exports camel bd) f = Ok D ->
   (file_services f <> [] ->
-     exists df, In df D /\ forall df', link_file df = Ok df' -> service_file_ok snake camel screaming true f df') /\
+     exists df, In df D /\ forall df', link_file df = Ok df' -> service_file_ok snake camel screaming f df') /\
   (file_topics f <> [] ->
-     exists df, In df D /\ forall df', link_file df = Ok df' -> topic_file_ok snake camel screaming true f df') /\
+     exists df, In df D /\ forall df', link_file df = Ok df' -> topic_file_ok snake camel screaming f df') /\
   (forall df, In df D -> output_of f df).
 Proof.
   unfold valid_file, cv_file. intros Hv H. apply andb_true_iff in Hv. destruct Hv as [_ Hv].
@@ -326,7 +326,7 @@ Proof.
   induction fs as [|x r IH]; intros D H; cbn [J5sConvert.cv_files] in H.
   - inversion H. subst. split; [intros f []|intros df []].
   - destruct x as [j|p].
-    + apply obind_ok in H. destruct H as (a & Ea & H). apply obind_ok in H. destruct H as (c & Ec & H).
+    + destruct (file_lists_ok j) eqn:Elists; [|discriminate]. apply obind_ok in H. destruct H as (a & Ea & H). apply obind_ok in H. destruct H as (c & Ec & H).
       inversion H. subst D. clear H. destruct (IH _ Ec) as [I1 I2]. split.
       * intros f [Heq|Hin].
         -- inversion Heq. subst j. exists a. split; [exact Ea|apply incl_appl; apply incl_refl].
@@ -346,7 +346,7 @@ Proof. unfold link_file. intros H. apply obind_ok in H. destruct H as (ss & _ & 
 Theorem compile_correct_full bd pkg :
   valid_bundle snake camel screaming bd = true -> (exists f, In f bd /\ bfile_pkg f = pkg) ->
   exists D, compile_package snake camel screaming bd pkg = Ok D /\
-            package_contract_full snake camel screaming true bd pkg D.
+            package_contract_full snake camel screaming bd pkg D.
 Proof.
   intros Hv Hex. destruct (compile_correct snake camel screaming bd pkg Hv Hex) as (D & HD & Hmain).
   exists D. split; [exact HD|].
